@@ -39,6 +39,7 @@ type Contract struct {
 	Trusted    bool // contract assumed, body not verified
 	Pure       bool
 	NonDet     bool // pure (no side effects) but not a function of its arguments
+	Stable     bool // pure and independent of mutable heap state (reads only immutable fields)
 	Spec       bool // ghost spec function: inlined/unfolded at calls
 	Lemma      bool
 	Fuel       int
@@ -55,8 +56,19 @@ type Contract struct {
 	Notes      []string
 }
 
+// ImplDecl: closed-world declaration that an interface has exactly one
+// implementation in non-test code (checked mechanically over all MakeInterface sites).
+type ImplDecl struct {
+	Iface string // pkgpath.Name
+	Impl  string // type expression, e.g. *readWriteSegment
+	Pkg   string
+	File  string
+	Line  int
+}
+
 type SpecFile struct {
 	Path      string
+	Impls     []*ImplDecl
 	Contracts []*Contract
 	Defines   []*Define
 	UFuns     []*UFun
@@ -171,6 +183,17 @@ func ParseSpecFile(path string, pkgName string) (*SpecFile, error) {
 				continue
 			}
 			sf.Defines = append(sf.Defines, d)
+		case "impl":
+			f := strings.Fields(rest)
+			if len(f) != 2 {
+				errs = append(errs, fmt.Sprintf("%s:%d: impl <Interface> <Type>", path, ln))
+				continue
+			}
+			in := f[0]
+			if pkgName != "" && !strings.Contains(in, "/") {
+				in = pkgName + "." + in
+			}
+			sf.Impls = append(sf.Impls, &ImplDecl{Iface: in, Impl: f[1], Pkg: pkgName, File: path, Line: ln})
 		case "ghostfun":
 			u, err := parseGhostFun(rest)
 			if err != nil {
@@ -199,6 +222,9 @@ func ParseSpecFile(path string, pkgName string) (*SpecFile, error) {
 			cur.Pure = true
 		case "nondet":
 			cur.NonDet = true
+		case "stable":
+			cur.Stable = true
+			cur.Pure = true
 		case "spec":
 			cur.Spec = true
 			cur.Pure = true
